@@ -533,6 +533,7 @@ pub const SYNTH_NAMES: &[&str] = &[
     "\u{65e5}\u{672c}", "\u{1F600}", "a\u{1F600}", "\u{FFFD}\u{FFFD}", "\u{E000}b", "\u{FF41}", "\u{20000}", "\u{1D11E}z",
     "Storage 1", "stream.bin", "name_of_exactly_31_utf16_units_", "\u{1}CompObj", "\u{5}SummaryInformation", "Workbook", "WordDocument",
     "d1", "d2", "d3", "d4", "d5", "d6", "d7", "d8", "d9", "e1", "e2", "e3", "e4", "e5", "e6", "e7", "e8", "e9",
+    "_a", "a_", "[b", "]b", "^b", "`b", "B_", "b^", "__SRP_0", "Module1", "_VBA_PR", "ThisWor", "{c", "~c", "@c", "Ab", "aB", "ZZ", "zy",
 ];
 
 pub fn random_model(rng: &mut Rng, max_nodes: usize, max_size: u64) -> Model {
